@@ -111,6 +111,12 @@ def binFn (name : String) : Option (Val → Val → Val) :=
       | .tup [.int s, .int c], .tup [.int s', .int c'] => .tup [.int (s + s'), .int (c + c')] | _, _ => errV
   | "maxOpt" => some fun
       | .none, b => b | a, .none => a | a, b => if le b a then a else b
+  -- zero values that are only shallowly immutable: a tuple / list holding a mutable list
+  | "tupAppend" => some fun | .tup [.lst a], x => .tup [.lst (a ++ [x])] | _, _ => errV
+  | "tupExtend" => some fun | .tup [.lst a], .tup [.lst b] => .tup [.lst (a ++ b)] | _, _ => errV
+  | "nestAppend" => some fun | .lst [.lst a, .int c], x => .lst [.lst (a ++ [x]), .int (c + 1)] | _, _ => errV
+  | "nestExtend" => some fun
+      | .lst [.lst a, .int c], .lst [.lst b, .int d] => .lst [.lst (a ++ b), .int (c + d)] | _, _ => errV
   | _ => none
 
 /-- is the named binary function associative on the domain it is used on? -/
